@@ -91,6 +91,23 @@ def extract (comp : Char → Char) (rec : Seq) (l : Loc) : Seq :=
 /-- the ORF's own nucleotides `w[s .. e+3)` -/
 def orfSeq (w : Seq) (s e : Nat) : Seq := (w.drop s).take (e + 3 - s)
 
+/-! ### how the scanned window relates to the record
+
+  `find_all_orfs` cuts `chunk = record[offset .. offset + n)` (around the origin when `offset < 0`)
+  and scans `chunk` with `direction = 1` and `chunk.reverse_complement()` with `direction = -1`. -/
+
+/-- ring of length `L`: the window is the chunk starting at `offset` read forwards -/
+def WindowFwd (rec w : Seq) (offset L : Int) : Prop :=
+  ∀ k, k < w.length → w[k]? = rec[((offset + (k : Int)) % L).toNat]?
+/-- ring of length `L`: the window is the reverse complement of the chunk starting at `offset` -/
+def WindowRev (comp : Char → Char) (rec w : Seq) (offset L : Int) : Prop :=
+  ∀ k, k < w.length → w[k]? = (rec[((offset + ((w.length : Int) - 1 - (k : Int))) % L).toNat]?).map comp
+/-- line (`record_length=None`): the window is `record[offset .. offset + n)` -/
+def WindowFwdLin (rec w : Seq) (offset : Int) : Prop :=
+  0 ≤ offset ∧ ∀ k, k < w.length → w[k]? = rec[(offset + (k : Int)).toNat]?
+def WindowRevLin (comp : Char → Char) (rec w : Seq) (offset : Int) : Prop :=
+  0 ≤ offset ∧ ∀ k, k < w.length → w[k]? = (rec[(offset + ((w.length : Int) - 1 - (k : Int))).toNat]?).map comp
+
 /-! ### gaps between genes -/
 
 /-- the part of gene `g` no new ORF may touch: `[g.start + pad, g.end − pad)` -/
@@ -107,5 +124,23 @@ def sortedByStartB : List Gene → Bool
 /-- executable: the area `[a, b)` avoids every gene's core -/
 def areaAvoids (genes : List Gene) (pad : Int) (a : Int × Int) : Bool :=
   genes.all fun g => decide (a.2 ≤ g.start + pad) || decide (g.end - pad ≤ a.1) || decide (g.end - pad ≤ g.start + pad)
+    || decide (a.2 ≤ a.1)
+
+/-- every base of `l` lies in the area `a = (start, end)` of a record of length `L`; an area with
+    `start < 0` crosses the origin and stands for `[start + L, L) ∪ [0, end)` -/
+def locInArea (L : Int) (a : Int × Int) (l : Loc) : Bool :=
+  l.parts.all fun p =>
+    decide (p.lo < p.hi) &&
+    (if a.1 ≥ 0 then decide (a.1 ≤ p.lo) && decide (p.hi ≤ a.2)
+     else (decide (a.1 + L ≤ p.lo) && decide (p.hi ≤ L)) || (decide (0 ≤ p.lo) && decide (p.hi ≤ a.2)))
+
+/-- no base of `l` lies in the core of any gene -/
+def locAvoids (genes : List Gene) (pad : Int) (l : Loc) : Bool :=
+  l.parts.all fun p => areaAvoids genes pad (p.lo, p.hi)
+
+/-- a well-formed intergenic area of a record of length `L`: inside the record, or reaching back
+    across the origin by at most one turn (`start < 0`), never longer than the record -/
+def AreaOk (L : Int) (a : Int × Int) : Prop :=
+  -L ≤ a.1 ∧ a.1 ≤ a.2 ∧ a.2 - a.1 ≤ L ∧ (a.1 < 0 → 0 ≤ a.2)
 
 end ASV.Orf
